@@ -92,4 +92,68 @@ def handleSrv (args : List String) : String :=
     | _, _, _ => "bad-op"
   | _ => "bad-op"
 
+/-! ## `srvseq`: a history executed one handler at a time, by BOTH schedulers
+
+`srvseq <n> | <lang per URL> | <history>` — the history in the vocabulary of `srv` without `R:` (the
+answers are the model's: `seqActs`) and without `K:` (a silent configuration change is not an `Op`).
+The line printed is what `srv` prints for `runMacro (Sys.init State.init) (seqActs Client.init ops)`
+plus `| L <per URL 1/0: LatestAt as far as it is visible, `latestShown`>` for the client that schedule
+implies (`clientAfter`), then `| seq`
+and the same for `seqRun (Client.init, State.init) ops` — the two sides of `C09.macro_is_seqRun`; the
+implementation's line repeats the real server's publications (and the harness's own verdict "last
+publication = fresh lint of the newest text") on both sides. -/
+
+def actToOp : Act → Option Op
+  | .disk u t => some (.disk u t)
+  | .recv m => some (.msg m)
+  | _ => none
+
+def parseSrvOps (langs : List Lang) (w : String) : Option (List Op) := do
+  let as ← parseSrvAct langs w
+  if as.isEmpty then none else as.mapM actToOp
+
+/-- `LatestAt` as far as a client can SEE it: the last publication and `truth` print alike (`showOut`),
+or the document was never opened and nothing was published. `LatestAt c st u` implies it (equal `Out`s
+print alike); the converse fails exactly in the facets `showOut` hides because the published JSON does
+not carry them: the parser configuration of a plain-text document (`p-`), parser configurations with the
+same `IgnoreLinkTitle` bit (`iltOf`), the linter facet of documents with ≥ 2 dictionary words (`l*`).
+Example (outside `HistOk`: `DiskIsBuf` fails): `didOpen` of a plain-text document whose file does not
+exist, then `didChangeConfiguration 2` — the update is skipped, `parseCfg` stays 0, `LatestAt` is false,
+and the diagnostics are nevertheless those of a fresh lint (cf. the markdown example "a configuration
+change while the file does not exist" in `Props/C09.lean`, where the bit differs and it IS visible).
+The harness's verdict (published JSON = fresh lint of the newest text under the client's configuration
+and the dictionary files) is this observable notion, so this is what the `L` column compares. -/
+def latestShown (c : Client) (st : State) (u : Url) : Bool :=
+  showOut (st.outbox u) == showOut (truth c st u) || decide (c.buf u = none ∧ st.outbox u = .never)
+
+/-- publications per URL, user dictionary, file dictionaries (the format of `srv`), and per URL the
+verdict `L` (`latestShown`: 1/0) -/
+def showSt (n : Nat) (c : Client) (st : State) : List String :=
+  let us := List.range n
+  let pubs := us.flatMap fun u => "|" :: s!"u{u}" :: (pubsOf st u).map showOut
+  let sorted (l : List Nat) : List String := ((List.range 5).filter (fun w => l.contains w)).map toString
+  let files := us.flatMap fun u => "|" :: s!"F{u}" :: sorted (st.fileDict u)
+  pubs ++ ("|" :: "U" :: sorted st.userDict) ++ files ++
+    ("|" :: "L" :: us.map fun u => if latestShown c st u then "1" else "0")
+
+def handleSrvSeq (args : List String) : String :=
+  match splitAt "|" args with
+  | [[n], langs, hist] =>
+    match n.toNat?, langs.mapM parseLang, hist.mapM (parseSrvOps (langs.filterMap parseLang)) with
+    | some n, some ls, some ops =>
+      if ls.length ≠ n then "bad-op" else
+      let ops := ops.flatten
+      let as := seqActs Client.init ops
+      let y := runMacro (Sys.init State.init) as
+      let w := seqRun (Client.init, State.init) ops
+      if y.st.badOrder || w.2.badOrder then "bad-order"
+      else if !y.pend.isEmpty || !y.run.isEmpty || !y.queue.isEmpty then "unfinished"
+      -- the theorems' predicate implies the printed one (never fires; a guard on `showOut` / `latestShown`)
+      else if (List.range n).any (fun u =>
+          (decide (LatestAt (clientAfter as) y.st u) && !latestShown (clientAfter as) y.st u) ||
+          (decide (LatestAt w.1 w.2 u) && !latestShown w.1 w.2 u)) then "bad-latest"
+      else joinSp ("ok" :: showSt n (clientAfter as) y.st ++ ("|" :: "seq" :: showSt n w.1 w.2))
+    | _, _, _ => "bad-op"
+  | _ => "bad-op"
+
 end Harper.Driver.Server
